@@ -23,6 +23,10 @@ def check(run):
         verify.verify(run, c.E, con)
         if saved:
             c.E.summaries[(con.key_cls, "validate")] = saved
+    # container-shaped validators (collections with a stated small number of symbolic elements)
+    for k in sorted(c.contracts):
+        if k.startswith("valid:") and k.count(":") == 2 or k in ("valid:treeinfo.Images", "valid:treeinfo.Checksums"):
+            verify.verify(run, c.E, c.contracts[k])
     # enum.covers : every documented enumeration value is accepted (tables as imported are lower-bounded)
     with run.obligation("enum.documented_values_present", "conc", ["productmd.*.{COMPOSE_TYPES,RELEASE_TYPES,LABEL_NAMES,VARIANT_TYPES,...}"]) as ob:
         missing = []
